@@ -93,7 +93,11 @@ def main():
             rc, out = core.sh(["coqchk", "-silent", "-o", "-Q", core.COQ, "V", mod_name], timeout=3000)
             m = re.search(r"\* Axioms:(.*?)\n\s*\n\s*\* Constants/Inductives relying on type-in-type:(.*?)\n\s*\n", out, re.S)
             chk_axioms = [a.strip() for a in (m.group(1) if m else "").strip().split("\n") if a.strip() and a.strip() != "<none>"]
-            bad_ax = [a for a in chk_axioms if a.split()[0].rstrip(":") not in core.ALLOWED_AXIOMS and a.split(".")[-1].split()[0] not in core.ALLOWED_AXIOMS]
+            # the primitive 63-bit integers and floats of the standard library (used to pass bulk data to the model) are
+            # declared by the library itself as primitives with axiomatised specifications: they are not ours
+            STD_PRIM = ("Coq.Numbers.Cyclic.Int63.", "Coq.Floats.", "Coq.Array.")
+            bad_ax = [a for a in chk_axioms if not a.split()[0].startswith(STD_PRIM) and a.split()[0].rstrip(":") not in core.ALLOWED_AXIOMS
+                      and a.split(".")[-1].split()[0] not in core.ALLOWED_AXIOMS]
             ctx.notes.append("coqchk: rc=%d axioms=%s" % (rc, chk_axioms or "none"))
             if rc != 0 or bad_ax or "relying on type-in-type: <none>" not in re.sub(r"\s+", " ", out):
                 tie_breaks.append({"kind": "proof", "what": "coqchk does not accept %s or reports unexpected axioms" % mod_name, "theorem": mod_name, "detail": out[-2000:]})
